@@ -178,7 +178,7 @@ class LEdge:
     updates: dict  # var -> expr (parallel)
     visible: bool
     kind: str
-    info: list  # [(lineno, text, sync)]
+    info: list  # [(lineno key, text, sync, was a scheduling point of its own)]
     mover: str = ""
 
 
@@ -197,7 +197,7 @@ def lower(model: Model, comp) -> list[LEdge]:
                         ups[var] = ex
                 else:
                     ups[var] = ex
-        out.append(LEdge(e.thread, e.src, e.dst, lw.lx(e.guard), ups, e.visible, e.kind, [(e.lineno, e.info, e.sync)], e.mover))
+        out.append(LEdge(e.thread, e.src, e.dst, lw.lx(e.guard), ups, e.visible, e.kind, [(e.lineno, e.info, e.sync, (2 if e.postcall else 1) if e.visible else 0)], e.mover))
     return out
 
 
@@ -454,7 +454,7 @@ class TS:
             if not en:
                 raise Unsupported(f"prefix thread {thread} is stuck before the set-up predicate holds")
             st = self.step(st, en[0])
-            self.prefix_order += [(thread, sync) for _, _, sync in en[0].info if sync]
+            self.prefix_order += [(thread, op[2]) for op in en[0].info if op[2]]
         else:
             raise Unsupported("set-up prefix does not terminate")
         if st[self.model.errors_var]:
@@ -498,7 +498,7 @@ class TS:
 
         self.stable_loads = self.dead_stores = 0
         for e in reach:
-            if not e.visible or e.kind != "step" or any(sync for _, _, sync in e.info):
+            if not e.visible or e.kind != "step" or any(op[2] for op in e.info):
                 continue
             t = e.thread
             shared_reads = {v for v in per_edge[id(e)] if not local(v, t)}
@@ -510,6 +510,7 @@ class TS:
             if any(v in read for v in shared_writes):
                 continue
             e.visible = False
+            e.info = [(op[0], op[1], op[2], 0) for op in e.info]
             if shared_writes:
                 self.dead_stores += 1
             else:
@@ -757,7 +758,7 @@ class Encoding:
                 continue
             nd = model.eval(self.nd[i], model_completion=True).as_long()
             steps.append({"i": i, "thread": hit.thread, "kind": hit.kind, "nd": nd,
-                          "ops": [(ln, txt, sync) for ln, txt, sync in hit.info if txt or sync]})
+                          "ops": [tuple(op) for op in hit.info if op[1] or op[2]], "all_ops": [tuple(op) for op in hit.info]})
         final = {v: model.eval(self.states[self.K][v], model_completion=True).as_long() for v in ts.vars}
         return {"steps": steps, "final": final}
 
